@@ -422,6 +422,7 @@ func genReq(t *rapid.T, lb string) Req {
 	r := Req{Method: rapid.SampledFrom([]string{"GET", "POST", "POST", "PUT", "HEAD", "DELETE"}).Draw(t, lb+"m"), Target: rapid.SampledFrom(targets).Draw(t, lb+"t")}
 	nh := rapid.IntRange(0, 5).Draw(t, lb+"nh")
 	used := map[string]bool{}
+	joined := map[string]int{}
 	for i := 0; i < nh; i++ {
 		hl := fmt.Sprintf("%sh%d", lb, i)
 		var name string
@@ -443,6 +444,12 @@ func genReq(t *rapid.T, lb string) Req {
 			continue
 		}
 		used[key] = true
+		// the lines of one field are joined into one CGI variable: keep name + joined value inside a record
+		joined[key] += vl + 2
+		if joined[key]+len(key)+5 > 65000 {
+			joined[key] -= vl + 2
+			continue
+		}
 		r.Header = append(r.Header, [2]string{name, valOfLen(vl, i)})
 	}
 	if r.Method == "POST" || r.Method == "PUT" {
